@@ -275,3 +275,16 @@ Example regenerated_constants :
   /\ (vo_inline_lit_a, vo_inline_lit_b, vo_inline_lit_c, vo_sizeof_lit, vo_abstract_lit, vo_transform_lit)
      = ("inline", "inline", "inline", "sizeof", "abstract", "ripemd_keccak_256").
 Proof. vm_compute. repeat split; reflexivity. Qed.
+
+(* KNOWN FINDING (post-false-error:sort-key-in-named-inline-template), kept visible: the expansion of the consistent schema
+     struct El { kk = uint8 }   inline struct Tpl { @sort_key(kk) arr = array(El, 4) }   struct Foo { bar = inline Tpl }
+   as produced by AstPostProcessor (Array.copy prefixes the sort key, as the pinned tests require) is NOT consistent, and the
+   validator -- model and code alike -- reports it: soundness across expansion is refuted for this family of schemas. *)
+Definition sort_key_template_expanded : list decl := [
+  DStruct (mkstruct "El" SdNone [fld "kk" (FInt u8)] None);
+  DStruct (mkstruct "Tpl" SdInline [Field "arr" (arr (ElName "El") (SzNum 4) (Some "kk")) VNone DispNone (Some [att "sort_key" [AvStr "kk"]]) None] None);
+  DStruct (mkstruct "Foo" SdNone [Field "bar_arr" (arr (ElName "El") (SzNum 4) (Some "bar_kk")) VNone DispNone (Some [att "sort_key" [AvStr "kk"]]) None] None)].
+Example sort_key_in_template_refuted :
+  consistent After sort_key_template_expanded = false
+  /\ validate Post sort_key_template_expanded = Ok [err MUnknownSortKey ["bar_kk"] "Foo" ["bar_arr"]].
+Proof. vm_compute. split; reflexivity. Qed.
